@@ -203,3 +203,29 @@ func VerifNewRouter(ctx context.Context, storage string, tsbdS, nrRaw uint64, cf
 	})
 	return mux, nil
 }
+
+// VerifGetOrAddSeq calls GetOrAddChannel for the names in order on a fresh manager and numbers the distinct channel
+// objects in order of first appearance.
+func VerifGetOrAddSeq(ctx context.Context, dir string, names []string) []int {
+	cm := NewChannelMgr(GetEmptyConfig(), 30, 0)
+	ids := map[*channel]int{}
+	out := make([]int, len(names))
+	for i, n := range names {
+		ch, _ := cm.GetOrAddChannel(ctx, n, filepath.Join(dir, n))
+		if _, ok := ids[ch]; !ok {
+			ids[ch] = len(ids)
+		}
+		out[i] = ids[ch]
+	}
+	return out
+}
+
+// VerifAddTracks registers tracks (name, content type) in order with addTrData on a bare channel: the registered names
+// in order and the master track.
+func VerifAddTracks(tracks [][2]string) (names []string, master string) {
+	ch := &channel{trDatas: map[string]*trData{}}
+	for _, t := range tracks {
+		ch.addTrData(&trData{name: t[0], contentType: t[1]})
+	}
+	return append([]string(nil), ch.trIDs...), ch.masterTrName
+}
